@@ -251,6 +251,92 @@ func mkGenesis(t *sim.Tape) *genesis {
 	for c := range st.Chi.Assign {
 		st.Chi.Assign[c] = g.svcIDs[c%len(g.svcIDs)]
 	}
+	// a node may be started from a snapshot taken in the middle of the reports pipeline: packages in the accumulated
+	// history (every position, also the oldest), reports waiting in the ready queue (every position), reports pending
+	// on cores - with dependencies on old, queued, unknown or not-yet-accumulated packages
+	if t.Prob(1, 2, "pipeline_snapshot") {
+		mkReport := func(tag string, c int, deps []types.WorkPackageHash) types.WorkReport {
+			var w types.WorkReport
+			w.PackageSpec.Hash = types.WorkPackageHash(h256([]byte("genesis-package-" + tag)))
+			w.PackageSpec.Length = types.U32(50 + t.Choose(500, "snap_len"))
+			w.PackageSpec.ExportsRoot = types.ExportsRoot(h256(w.PackageSpec.Hash[:], []byte("exports")))
+			w.PackageSpec.ExportsCount = types.U16(t.Choose(3, "snap_exports"))
+			w.CoreIndex = types.CoreIndex(c)
+			w.AuthOutput = types.ByteSequence{}
+			w.Context.Prerequisites = []types.OpaqueHash{}
+			w.SegmentRootLookup = types.SegmentRootLookup{}
+			for _, d := range deps {
+				if t.Prob(1, 3, "snap_dep_is_lookup") {
+					w.SegmentRootLookup = append(w.SegmentRootLookup, types.SegmentRootLookupItem{WorkPackageHash: d, SegmentTreeRoot: h256(d[:], []byte("exports"))})
+				} else {
+					w.Context.Prerequisites = append(w.Context.Prerequisites, types.OpaqueHash(d))
+				}
+			}
+			sid := g.svcIDs[t.Choose(len(g.svcIDs), "snap_svc")]
+			w.Results = []types.WorkResult{{ServiceID: sid, CodeHash: g.programs[sid].codeH, PayloadHash: h256([]byte(tag)), AccumulateGas: types.Gas(50000),
+				Result: types.WorkExecResult{Type: types.WorkExecResultOk, Data: []byte{1}}}}
+			return w
+		}
+		var old []types.WorkPackageHash // accumulated long ago or recently
+		for i := 0; i < types.EpochLength; i++ {
+			if i == 0 || t.Prob(1, 3, "snap_xi") {
+				h := types.WorkPackageHash(h256([]byte{byte(i), 0x51}))
+				st.Xi[i] = append(st.Xi[i], h)
+				old = append(old, h)
+			}
+		}
+		unknown := types.WorkPackageHash(h256([]byte("never reported")))
+		pickDeps := func(extra []types.WorkPackageHash) []types.WorkPackageHash {
+			pool := append(append([]types.WorkPackageHash{unknown}, old...), extra...)
+			var deps []types.WorkPackageHash
+			seen := map[types.WorkPackageHash]bool{}
+			for k := 0; k < t.Choose(3, "snap_ndeps"); k++ {
+				d := pool[t.Choose(len(pool), "snap_dep")]
+				if k == 0 && t.Prob(1, 3, "snap_dep_oldest") {
+					d = old[0] // the package in the oldest entry of the accumulated history
+				}
+				if !seen[d] {
+					seen[d] = true
+					deps = append(deps, d)
+				}
+			}
+			return deps
+		}
+		var pendingPkgs []types.WorkPackageHash
+		for c := 0; c < types.CoresCount; c++ {
+			if t.Prob(2, 3, "snap_pending") {
+				w := mkReport(fmt.Sprintf("pending-%d", c), c, pickDeps(pendingPkgs))
+				back := types.TimeSlot(t.Choose(4, "snap_assigned_back"))
+				if back > st.Tau {
+					back = st.Tau
+				}
+				st.Rho[c] = &types.AvailabilityAssignment{Report: w, AssignedSlot: st.Tau - back}
+				pendingPkgs = append(pendingPkgs, w.PackageSpec.Hash)
+			}
+		}
+		for i := 0; i < types.EpochLength; i++ {
+			if t.Prob(1, 4, "snap_queued") {
+				deps := pickDeps(pendingPkgs)
+				var live []types.WorkPackageHash
+				for _, d := range deps { // a kept queue entry never waits for something already accumulated
+					isOld := false
+					for _, o := range old {
+						if o == d {
+							isOld = true
+						}
+					}
+					if !isOld {
+						live = append(live, d)
+					}
+				}
+				if len(live) == 0 {
+					live = []types.WorkPackageHash{unknown}
+				}
+				w := mkReport(fmt.Sprintf("queued-%d", i), i%types.CoresCount, live)
+				st.Vartheta[i] = append(st.Vartheta[i], types.ReadyRecord{Report: w, Dependencies: live})
+			}
+		}
+	}
 	kvs, err := merklization.StateEncoder(*st)
 	if err != nil {
 		panic("StateEncoder(genesis): " + err.Error())
